@@ -1,5 +1,5 @@
 //verif:package github.com/kstenerud/go-concise-encoding/internal/verifh/c29
-//verif:config cap=300
+//verif:config cap=300 steps=400000000 timeout=120000 maxsec=1800
 //verif:bounds the real Marshalers/Unmarshalers (iterator and builder sessions included); the fault point is a solver variable: index k of the Write/Read call that fails (0..31) and whether a write fault is transient (that call only) or persistent, over 6 Go values / document templates with symbolic payload; failing reads may first deliver a symbolic number of bytes; the read error is a non-EOF error
 //verif:assume reflect, sync.Map and WaitGroup are the engine's emulation / sequential model; writers obey the io.Writer contract (a short write comes with an error)
 package c29
@@ -192,4 +192,22 @@ func Verif_C29_CTEDecodeReadFault() {
 	verifrt.Reach("read-failed")
 	verifrt.Assert(!panicked, "no panic escapes CTE Decode")
 	verifrt.Assert(err != nil, "a failed read makes CTE Decode return an error")
+}
+
+// The whole CTE unmarshal path (stream copy, ANTLR parser, rules, builders).
+func Verif_C29_CTEUnmarshalReadFault() {
+	doc := []byte("c0\n{\"k\" = [1 2 3]}")
+	k := verifrt.U8("failAt")
+	verifrt.Assume(k < 8)
+	rd := &faultReader{data: doc, k: k}
+	var err error
+	panicked := verifh.Try(func() { _, err = cte.NewUnmarshaler(configuration.New()).Unmarshal(rd, nil) })
+	verifrt.Assert(!panicked, "no panic escapes CTE Unmarshal")
+	if rd.hit {
+		verifrt.Reach("read-failed")
+		verifrt.Assert(err != nil, "a failed read makes CTE Unmarshal return an error")
+	} else {
+		verifrt.Reach("no-fault")
+		verifrt.Assert(err == nil, "without a fault CTE Unmarshal succeeds")
+	}
 }
